@@ -164,6 +164,8 @@ func (w *world) recvMalformed(class string, s core.Step) error {
 			lb.Header.Hash = c.last.GetHeader().GetHash()
 			send(ltT, [][]byte{w.h.EncodeMsg(lb)})
 		}
+	case "dlreply", "dlserve", "peerreply", "peerserve", "proof":
+		return w.recvNet(class)
 	default:
 		return fmt.Errorf("unknown malformed class %q", class)
 	}
